@@ -115,7 +115,7 @@ def execute(scenario, seed, overrides=None):
             if st["hm"] is None:
                 st["hm"] = HostModel(w.hosts["V"].start_time)
             hm = st["hm"]
-            msg, eff = hm.on_rx(t, rsock.label, data, v6sock=rsock.family == AF_INET6)
+            msg, eff = hm.on_rx(t, rsock.label, data, v6sock=rsock.family == AF_INET6, src=addr)
             if eff is None:
                 return
             for ident in eff.new + eff.refreshed + eff.flushed:
